@@ -125,8 +125,13 @@ func (s *Server) Start(ctx context.Context, readyFunc func()) {
 		return
 	}
 
-	// Start listener go routine.
-	go s.serve(ctx)
+	// Start listener go routine.  It is tracked by the WaitGroup so that Drain also waits for
+	// the accept loop to end, and sessions are only ever added while it is counted.
+	s.wg.Add(1)
+	go func() {
+		defer s.wg.Done()
+		s.serve(ctx)
+	}()
 	readyFunc()
 
 	// Wait for shutdown.
@@ -176,7 +181,12 @@ func (s *Server) serve(ctx context.Context) {
 			}
 		} else {
 			tempDelay = 0
-			go s.startSession(sessionID, conn, log.Logger)
+			// Register the session before its goroutine is scheduled, so Drain cannot miss it.
+			s.wg.Add(1)
+			go func(id int) {
+				defer s.wg.Done()
+				s.startSession(id, conn, log.Logger)
+			}(sessionID)
 		}
 	}
 }
